@@ -7,6 +7,99 @@ Open Scope string_scope.
 Open Scope list_scope.
 Open Scope N_scope.
 
+Section CV.
+Variable cv : variant.
+Local Notation is_simple_id := (SmtSer.is_simple_id cv) (only parsing).
+Local Notation escape_id := (SmtSer.escape_id cv) (only parsing).
+Local Notation ser := (SmtSer.ser cv) (only parsing).
+Local Notation ser_cmd := (SmtSer.ser_cmd cv) (only parsing).
+Local Notation name_ok := (SmtSer.name_ok cv) (only parsing).
+Local Notation declared := (SmtSer.declared cv) (only parsing).
+Local Notation symbols_declared := (SmtSer.symbols_declared cv) (only parsing).
+Local Notation lx_go := (SmtLex.lx_go cv) (only parsing).
+Local Notation lex_impl := (SmtLex.lex_impl cv) (only parsing).
+Local Notation early_other := (SmtParse.early_other cv) (only parsing).
+Local Notation early_parse := (SmtParse.early_parse cv) (only parsing).
+Local Notation step := (SmtParse.step cv) (only parsing).
+Local Notation run := (SmtParse.run cv) (only parsing).
+Local Notation parse_eot := (SmtParse.parse_eot cv) (only parsing).
+Local Notation parse_expr_internal := (SmtParse.parse_expr_internal cv) (only parsing).
+Local Notation parse_type := (SmtParse.parse_type cv) (only parsing).
+Local Notation parse_expr_toks := (SmtParse.parse_expr_toks cv) (only parsing).
+Local Notation parse_expr_str := (SmtParse.parse_expr_str cv) (only parsing).
+Local Notation skip_expr := (SmtParse.skip_expr cv) (only parsing).
+Local Notation parse_get_value_response_toks := (SmtParse.parse_get_value_response_toks cv) (only parsing).
+Local Notation parse_get_value_response_str := (SmtParse.parse_get_value_response_str cv) (only parsing).
+Local Notation parse_expr_list_go := (SmtParse.parse_expr_list_go cv) (only parsing).
+Local Notation parse_expr_list_rest := (SmtParse.parse_expr_list_rest cv) (only parsing).
+Local Notation parse_unsat_assumptions_toks := (SmtParse.parse_unsat_assumptions_toks cv) (only parsing).
+Local Notation parse_unsat_assumptions_str := (SmtParse.parse_unsat_assumptions_str cv) (only parsing).
+Local Notation parse_command_body := (SmtParse.parse_command_body cv) (only parsing).
+Local Notation parse_command_toks := (SmtParse.parse_command_toks cv) (only parsing).
+Local Notation parse_command_str := (SmtParse.parse_command_str cv) (only parsing).
+Local Notation count_parens := (SmtParse.count_parens cv) (only parsing).
+Local Notation rc_balance := (SmtParse.rc_balance cv) (only parsing).
+Local Notation read_command := (SmtParse.read_command cv) (only parsing).
+Local Notation is_simple_id_loop := (SmtSerLemmas.is_simple_id_loop cv) (only parsing).
+Local Notation is_simple_id_chars := (SmtSerLemmas.is_simple_id_chars cv) (only parsing).
+Local Notation is_simple_id_first := (SmtSerLemmas.is_simple_id_first cv) (only parsing).
+Local Notation escape_sound_gen := (SmtSerLemmas.escape_sound_gen cv) (only parsing).
+Local Notation escape_sound_lemma := (SmtSerLemmas.escape_sound_lemma cv) (only parsing).
+Local Notation good := (SmtSerProofs.good cv) (only parsing).
+Local Notation symbols_declared_app := (SmtSerProofs.symbols_declared_app cv) (only parsing).
+Local Notation name_ok_facts := (SmtSerProofs.name_ok_facts cv) (only parsing).
+Local Notation symbol_good := (SmtSerProofs.symbol_good cv) (only parsing).
+Local Notation ser_core := (SmtSerProofs.ser_core cv) (only parsing).
+Local Notation ser_eq := (SmtSerProofs.ser_eq cv) (only parsing).
+Local Notation core_good := (SmtSerProofs.core_good cv) (only parsing).
+Local Notation wrap_good_e := (SmtSerProofs.wrap_good_e cv) (only parsing).
+Local Notation ser_good := (SmtSerProofs.ser_good cv) (only parsing).
+Local Notation ser_sorted_sound_lemma := (SmtSerProofs.ser_sorted_sound_lemma cv) (only parsing).
+Local Notation name_ok_intro := (SmtSerProofs.name_ok_intro cv) (only parsing).
+Local Notation noop_slice_latent := (SmtSerProofs.noop_slice_latent cv) (only parsing).
+Local Notation cont := (SmtParseProofs.cont cv) (only parsing).
+Local Notation runs_to := (SmtParseProofs.runs_to cv) (only parsing).
+Local Notation run_cons := (SmtParseProofs.run_cons cv) (only parsing).
+Local Notation cont_nonempty := (SmtParseProofs.cont_nonempty cv) (only parsing).
+Local Notation run_items := (SmtParseProofs.run_items cv) (only parsing).
+Local Notation run_group := (SmtParseProofs.run_group cv) (only parsing).
+Local Notation runs_value := (SmtParseProofs.runs_value cv) (only parsing).
+Local Notation runs_escaped := (SmtParseProofs.runs_escaped cv) (only parsing).
+Local Notation atom_item := (SmtParseProofs.atom_item cv) (only parsing).
+Local Notation sxi := (SmtParseProofs.sxi cv) (only parsing).
+Local Notation sxi_list := (SmtParseProofs.sxi_list cv) (only parsing).
+Local Notation sxi_list_eq := (SmtParseProofs.sxi_list_eq cv) (only parsing).
+Local Notation machine_sx := (SmtParseProofs.machine_sx cv) (only parsing).
+Local Notation early_plain := (SmtParseProofs.early_plain cv) (only parsing).
+Local Notation early_other_lookup := (SmtParseProofs.early_other_lookup cv) (only parsing).
+Local Notation early_other_kw := (SmtParseProofs.early_other_kw cv) (only parsing).
+Local Notation simple_plain := (SmtParseProofs.simple_plain cv) (only parsing).
+Local Notation table_for := (SmtParseProofs.table_for cv) (only parsing).
+Local Notation keys_ok := (SmtParseProofs.keys_ok cv) (only parsing).
+Local Notation theory_not_ok := (SmtParseProofs.theory_not_ok cv) (only parsing).
+Local Notation atom_head := (SmtParseProofs.atom_head cv) (only parsing).
+Local Notation simple_not_kw := (SmtParseProofs.simple_not_kw cv) (only parsing).
+Local Notation atom_symbol := (SmtParseProofs.atom_symbol cv) (only parsing).
+Local Notation head_item := (SmtRoundTrip.head_item cv) (only parsing).
+Local Notation numeral_item := (SmtRoundTrip.numeral_item cv) (only parsing).
+Local Notation bitvec_item := (SmtRoundTrip.bitvec_item cv) (only parsing).
+Local Notation elem_item := (SmtRoundTrip.elem_item cv) (only parsing).
+Local Notation ser_type_arr_item := (SmtRoundTrip.ser_type_arr_item cv) (only parsing).
+Local Notation syms_in := (SmtRoundTrip.syms_in cv) (only parsing).
+Local Notation lit_item := (SmtRoundTrip.lit_item cv) (only parsing).
+Local Notation sxi_wrap := (SmtRoundTrip.sxi_wrap cv) (only parsing).
+Local Notation early_bits := (SmtRoundTrip.early_bits cv) (only parsing).
+Local Notation early_zeros := (SmtRoundTrip.early_zeros cv) (only parsing).
+Local Notation sxi_ser := (SmtRoundTrip.sxi_ser cv) (only parsing).
+Local Notation parse_ser_lemma := (SmtRoundTrip.parse_ser_lemma cv) (only parsing).
+Local Notation run_state := (SmtRoundTrip.run_state cv) (only parsing).
+Local Notation end_of_tokens := (SmtRoundTrip.end_of_tokens cv) (only parsing).
+Local Notation run_app_state := (SmtRoundTrip.run_app_state cv) (only parsing).
+Local Notation run_nil := (SmtRoundTrip.run_nil cv) (only parsing).
+Local Notation truncated_lemma := (SmtRoundTrip.truncated_lemma cv) (only parsing).
+Local Notation trailing_token_error_lemma := (SmtRoundTrip.trailing_token_error_lemma cv) (only parsing).
+
+
 (** ** the machine on a single-binding [let] *)
 
 Lemma map_remove_absent {A} k (m : list (string * A)) : assoc_str k m = None -> map_remove k m = m.
@@ -32,29 +125,29 @@ Lemma run_let st x tv ev tb eb :
   runs_to st ([TkOpen; TkValue "let"; TkOpen; TkOpen; TkValue x] ++ tv ++ [TkClose; TkClose] ++ tb ++ [TkClose]) (IExpr eb).
 Proof.
   intros (Hx1 & Hx2 & Hx3) Hv Hb stk rest Hg.
-  cbn [app]. cbn [run].
+  cbn [app]. cbn [SmtParse.run].
   assert (S1 : step TkOpen stk st false = POk (IOpen false :: stk, st, false)).
-  { cbn [step]. destruct stk as [|[] ?]; try reflexivity; destruct Hg. }
+  { cbn [SmtParse.step]. destruct stk as [|[] ?]; try reflexivity; destruct Hg. }
   rewrite S1. cbn [machine_done].
   (* let *)
-  cbn [run step]. change (early_parse (Some st) "let") with (POk (ILet 0)). cbn [pbind machine_done].
+  cbn [SmtParse.run SmtParse.step]. change (early_parse (Some st) "let") with (POk (ILet 0)). cbn [pbind machine_done].
   (* ( ( *)
-  cbn [run step]. change (0 <? 2) with true. cbv iota. cbn [machine_done].
-  cbn [run step]. change (0 + 1 <? 2) with true. cbv iota. cbn [machine_done].
+  cbn [SmtParse.run SmtParse.step]. change (0 <? 2) with true. cbv iota. cbn [machine_done].
+  cbn [SmtParse.run SmtParse.step]. change (0 + 1 <? 2) with true. cbv iota. cbn [machine_done].
   (* the binder *)
-  cbn [run step]. change (match 0 + 1 + 1 with 2 => None | _ => Some st end) with (@None nst). change (0 + 1 + 1) with 2. rewrite Hx2. cbn [pbind machine_done].
+  cbn [SmtParse.run SmtParse.step]. change (match 0 + 1 + 1 with 2 => None | _ => Some st end) with (@None nst). change (0 + 1 + 1) with 2. rewrite Hx2. cbn [pbind machine_done].
   (* the value *)
   rewrite <- !app_assoc.
   rewrite (Hv (ISym x :: ILet 2 :: IOpen false :: stk) _ I). rewrite cont_nonempty.
   (* ) : the definition *)
-  cbn [app run step split_at_open]. cbn [parse_pattern pbind]. cbn [machine_done].
+  cbn [app SmtParse.run SmtParse.step split_at_open]. cbn [parse_pattern pbind]. cbn [machine_done].
   (* ) : the scope *)
-  cbn [run step machine_done].
+  cbn [SmtParse.run SmtParse.step machine_done].
   (* the body *)
   rewrite <- app_assoc. rewrite (Hb (IOpen true :: stk) _ I). rewrite cont_nonempty.
   (* ) *)
-  cbn [app run step split_at_open parse_pattern pbind]. rewrite (pop_push st x ev Hx3). cbn [pbind].
-  unfold cont. destruct (machine_done (IExpr eb :: stk)); reflexivity.
+  cbn [app SmtParse.run SmtParse.step split_at_open parse_pattern pbind]. rewrite (pop_push st x ev Hx3). cbn [pbind].
+  unfold SmtParseProofs.cont. destruct (machine_done (IExpr eb :: stk)); reflexivity.
 Qed.
 
 (** ** model values in the forms solvers print them *)
@@ -99,9 +192,9 @@ Fixpoint mv_expr (env : symtab) (m : mval) : option expr :=
       match mv_expr env v with Some ev => mv_expr ((x, ev) :: env) b | None => None end
   end.
 
-(** a name usable as let binder / variable: a plain token, not a keyword of the reader, not a numeral *)
+(** a name usable as let binder / variable: a plain token, not a keyword of the reader, not a numeral, [_] or [as] *)
 Definition var_ok (x : string) : Prop :=
-  ltok_of_atom x = TkValue x /\ plain_value x = true /\ name_ok x = true /\ all_digits x = false.
+  ltok_of_atom x = TkValue x /\ plain_value x = true /\ name_ok x = true /\ kw_tok x = false.
 
 Fixpoint mv_wf (env : symtab) (m : mval) : Prop :=
   match m with
@@ -122,7 +215,7 @@ Fixpoint mv_wf (env : symtab) (m : mval) : Prop :=
   end.
 
 Definition env_clean (env : symtab) : Prop :=
-  forall n, name_ok n = false \/ all_digits n = true -> assoc_str n env = None.
+  forall n, name_ok n = false \/ (cv = Cur /\ kw_tok n = true) -> assoc_str n env = None.
 
 Definition st_of (env : symtab) : nst := {| nst_top := []; nst_lets := env; nst_undo := [] |}.
 
@@ -135,7 +228,7 @@ Lemma early_bits_gen st w v : 0 < w -> v < 2 ^ w ->
   early_parse (Some st) (String.append "#b" (bits_str w v)) = POk (IExpr (BVLiteral w v)).
 Proof.
   intros Hw Hv. unfold bits_str. cbn [String.append].
-  unfold early_parse. change (Ascii.eqb "#" "#") with true. change (Ascii.eqb "b" "b") with true.
+  unfold SmtParse.early_parse. change (Ascii.eqb "#" "#") with true. change (Ascii.eqb "b" "b") with true.
   rewrite bits_all_bin by lia. cbn [andb]. rewrite digits_val_bits. rewrite Nnat.N2Nat.id.
   unfold literal_expr. rewrite N.mod_small by assumption. do 3 f_equal; lia.
 Qed.
@@ -143,15 +236,15 @@ Qed.
 Lemma early_hex st ds len v : all_chars is_hex_digit ds = true -> digits_val hex_of 16 ds 0 0 = Some (len, v) ->
   early_parse (Some st) (String.append "#x" ds) = POk (IExpr (BVLiteral (4 * len) v)).
 Proof.
-  intros Ha Hd. cbn [String.append]. unfold early_parse.
+  intros Ha Hd. cbn [String.append]. unfold SmtParse.early_parse.
   change (Ascii.eqb "#" "#") with true. change (Ascii.eqb "x" "b") with false. change (Ascii.eqb "x" "x") with true.
   cbn [andb]. rewrite Ha, Hd. reflexivity.
 Qed.
 
-Lemma clean_cons env x e : env_clean env -> name_ok x = true -> all_digits x = false -> env_clean ((x, e) :: env).
+Lemma clean_cons env x e : env_clean env -> name_ok x = true -> kw_tok x = false -> env_clean ((x, e) :: env).
 Proof.
   intros Hc Hn Hd n Hk. cbn [assoc_str]. destruct (String.eqb_spec n x) as [-> | _]; [|now apply Hc].
-  destruct Hk as [Hk | Hk]; congruence.
+  destruct Hk as [Hk | [_ Hk]]; congruence.
 Qed.
 
 Theorem value_machine :
@@ -168,14 +261,15 @@ Proof.
   - inversion He; subst. apply runs_value. reflexivity.
   - inversion He; subst. apply runs_value. reflexivity.
   - destruct Hwf as [(Hx1 & Hx2 & Hx3 & Hx4) _]. unfold toks_of_sx. cbn [flatten map ltok_of]. rewrite Hx1.
-    apply runs_value. rewrite (early_plain st x Hx2). destruct st as [top lets undo]. cbn [nst_top nst_lets] in *. subst top.
+    apply runs_value. rewrite (early_plain st x Hx2), (early_other_lookup st x (fun _ => Hx4)).
+    destruct st as [top lets undo]. cbn [nst_top nst_lets] in *. subst top.
     rewrite nst_get_lets, He. reflexivity.
   - destruct Hwf as (Hi0 & Hd0 & Hi & Hd & Hwv & Hty).
     destruct (mv_expr (nst_lets st) mv) as [ev|] eqn:Ev; [|discriminate]. inversion He; subst.
-    assert (Hkeys : forall n, name_ok n = false \/ all_digits n = true -> nst_get st n = None).
+    assert (Hkeys : keys_ok st).
     { intros n Hk. destruct st as [top lets undo]. cbn [nst_top nst_lets] in *. subst top. rewrite nst_get_lets, (Hclean n Hk). reflexivity. }
     assert (Hhead : sxi st (SxList [SxAtom "as"; SxAtom "const"; ser_type (TArr iw dw)]) = POk (IAsConst iw dw)).
-    { rewrite sxi_list_eq. cbn [sxi_list].
+    { rewrite sxi_list_eq. cbn [SmtParseProofs.sxi_list].
       rewrite (head_item st Hkeys "as" eq_refl eq_refl eq_refl), (head_item st Hkeys "const" eq_refl eq_refl eq_refl).
       rewrite (ser_type_arr_item st Hkeys iw dw Hi Hd). cbn [pbind]. rewrite pat_as_const. reflexivity. }
     destruct (machine_sx st _ _ Hhead) as [Rh _].
@@ -189,7 +283,7 @@ Proof.
     destruct (mv_expr (nst_lets st) a) as [ea|] eqn:Ea; [|discriminate].
     destruct (mv_expr (nst_lets st) i) as [ei|] eqn:Ei; [|discriminate].
     destruct (mv_expr (nst_lets st) d) as [ed|] eqn:Ed; [|discriminate]. inversion He; subst.
-    assert (Hkeys : forall n, name_ok n = false \/ all_digits n = true -> nst_get st n = None).
+    assert (Hkeys : keys_ok st).
     { intros n Hk. destruct st as [top lets undo]. cbn [nst_top nst_lets] in *. subst top. rewrite nst_get_lets, (Hclean n Hk). reflexivity. }
     rewrite toks_list.
     change (map toks_of_sx [SxAtom "store"; mv_sx a; mv_sx i; mv_sx d])
@@ -213,7 +307,7 @@ Proof.
       - rewrite Hlets. now apply Hwb.
       - now rewrite Hlets. }
     assert (Hb : binder_ok st x).
-    { repeat split; try assumption. unfold plain_value in Hx2. unfold early_parse.
+    { repeat split; try assumption. unfold plain_value in Hx2. unfold SmtParse.early_parse.
       destruct x as [|h [|k r]]; try reflexivity.
       rewrite !andb_true_iff, !negb_true_iff in Hx2. destruct Hx2 as ((((((H1 & H2) & H3) & H4) & H5) & H6) & H7).
       now rewrite H1, H2, H3, H4, H5, H6, H7. }
@@ -358,7 +452,7 @@ Proof.
   destruct (mv_expr [] m) as [e|] eqn:He.
   - exists e. split; [| apply (value_sound m [] (fun _ => None) v e Hwf); [intros x ex Hx; discriminate Hx | exact Hs | exact He]].
     pose proof (value_machine m (nst_new []) e eq_refl (fun n _ => eq_refl) Hwf He) as R.
-    unfold parse_expr_toks, parse_expr_internal, parse_eot.
+    unfold SmtParse.parse_expr_toks, SmtParse.parse_expr_internal, SmtParse.parse_eot.
     rewrite <- (app_nil_r (toks_of_sx (mv_sx m))). rewrite (R [] [] I). reflexivity.
   - exfalso. (* the reference evaluates it, so every sub-term is built *)
     revert v Hs He Hwf. generalize (fun _ : string => @None sval) as M. generalize (@nil (string * expr)) as env.
@@ -411,5 +505,8 @@ Proof.
                   | match goal with H : _ = Some _ |- _ => vm_compute in H; inversion H; subst; clear H end
                   | progress (cbn [mv_wf mv_expr] in * )
                   | (eexists; reflexivity) | (vm_compute; reflexivity) | lia | discriminate ]).
+    all: destruct cv; vm_compute; reflexivity.
   - eexists. split; [vm_compute; reflexivity | split; reflexivity].
 Qed.
+
+End CV.
